@@ -1,6 +1,7 @@
 """C16 - endian-aware binary streams (include/asl/StreamBuffer.h, File.h, Socket.h, defs.h)"""
 import re
 from vf.core import Unit, Cut
+from vf import replay
 
 D, SB, FH, SK = 'include/asl/defs.h', 'include/asl/StreamBuffer.h', 'include/asl/File.h', 'include/asl/Socket.h'
 
@@ -192,3 +193,9 @@ UNITS += [sb_put_arr, file_put_arr, sock_put_arr]
 # Socket << / >> move their bytes through Socket_::write / Socket_::read: the C10 units of those loops serve "reading the same types back returns the original values"
 from units.C10 import sock_read as _sr, sock_write as _sw
 UNITS += [_sr, _sw]
+
+# replay: the native counterpart of the per-type contract units is the driver's battery: every scalar type x byte order x bit pattern through StreamBuffer, File and Socket
+# (socket bytes delivered in two pieces), mid-stream order switch, arrays of 0..5 elements, caller's array untouched
+for _u in UNITS:
+    if not _u.replay:
+        _u.replay = replay.battery('C16/driver.cpp', ['battery'])
